@@ -71,7 +71,7 @@ def make_case(ctx, rng):
     for s in sc.samples:
         for c in sc.chroms:
             n = {"low": rng.randint(3, 10), "mid": rng.randint(10, 40), "high": rng.randint(40, 90)}[depth_mode]
-            lr = rng.choice([(40, 90), (60, 200), (150, 400)])
+            lr = rng.choice([(60, 150), (120, 350), (250, 700)])
             reads += synth.simulate_reads(rng, sc, s, c, n, len_range=lr, paired_fraction=rng.choice([0, 0, 0.4]))
     opts = {"tag": rng.choice(["PS", "HP"]), "only_snvs": rng.random() < 0.2,
             "downsampling": rng.choice([2, 3, 4, 6, 15]),
@@ -249,7 +249,7 @@ def do_runs(ctx, specs):
 
 
 def run(ctx):
-    n = ctx.n(24, 400)
+    n = ctx.n(60, 600)
     specs = [make_case(ctx, ctx.rng) for _ in range(n)]
     do_runs(ctx, specs)
 
